@@ -74,29 +74,7 @@ def _sort_key(ctx, priv):
     ctx.ob('C06.1', priv, call,
            rev is None or (isinstance(rev, ast.Constant) and not rev.value),
            'ascending sort')
-    keyf = K.kwarg(call, 'key')
-    keyfunc = None
-    if isinstance(keyf, ast.Name) and keyf.id in priv.nested():
-        keyfunc = priv.nested()[keyf.id]
-        param = keyfunc.params()[0]
-        rets = [s for s in K.walk_no_nested(keyfunc.node)
-                if isinstance(s, ast.Return)]
-        tup = rets[0].value if rets else None
-    elif isinstance(keyf, (ast.Name, ast.Attribute)) and (
-            ctx.index.resolve_expr(priv.module, keyf) or ('', 0))[0] == \
-            'func':
-        # a module-level / static key function
-        keyfunc = ctx.index.resolve_expr(priv.module, keyf)[1]
-        param = keyfunc.params()[-1] if keyfunc.params() else None
-        rets = [s for s in K.walk_no_nested(keyfunc.node)
-                if isinstance(s, ast.Return)]
-        tup = rets[0].value if len(rets) == 1 else None
-    elif isinstance(keyf, ast.Lambda):
-        param = keyf.args.args[0].arg
-        tup = keyf.body
-    else:
-        tup = None
-        param = None
+    keyfunc, param, tup = K.sort_key_tuple(ctx.index, priv, call)
     ctx.require(isinstance(tup, ast.Tuple), 'tuple sort key')
     elts = tup.elts
     e0 = len(elts) > 0 and isinstance(elts[0], ast.UnaryOp) and \
@@ -105,18 +83,8 @@ def _sort_key(ctx, priv):
     ctx.ob('C06.1', keyfunc or priv, tup, e0,
            'first key: priority descending (-%s.priority)' % param,
            construct='key[0]')
-    e1 = False
-    if len(elts) > 1:
-        el = elts[1]
-        if isinstance(el, ast.IfExp) and \
-                N.txt(el.test) == '%s.server' % param and \
-                isinstance(el.body, ast.Constant) and \
-                isinstance(el.orelse, ast.Constant) and \
-                el.body.value < el.orelse.value:
-            e1 = True
-        elif N.txt(el) in ('not %s.server' % param,
-                           '%s.server is None' % param):
-            e1 = True
+    e1 = len(elts) > 1 and K.placed_first(ctx.index, keyfunc or priv,
+                                          elts[1], param)
     ctx.ob('C06.1', keyfunc or priv, tup, e1,
            'second key: placed before pending', construct='key[1]')
     e2 = len(elts) > 2 and N.txt(elts[2]) == '%s.global_order' % param
@@ -299,12 +267,8 @@ def _layout(ctx, priv, merged):
     pel = ptup.elts
     placed_first = False
     if len(pel) == 6:
-        third = K.rexpr(priv, pel[3])
-        placed_first = isinstance(third, ast.IfExp) and \
-            N.txt(third.test) == '%s.server' % appv and \
-            isinstance(third.body, ast.Constant) and \
-            isinstance(third.orelse, ast.Constant) and \
-            third.body.value < third.orelse.value
+        placed_first = K.placed_first(ctx.index, priv,
+                                      K.rexpr(priv, pel[3]), appv)
     okp = len(pel) == 6 and isinstance(pel[0], ast.Name) and \
         placed_first and \
         K.rtxt(priv, pel[4]) == '%s.global_order' % appv and \
